@@ -570,6 +570,8 @@ package emitter
 
 //@ func (e *Emitter) emitScriptStatement
 //@   requires scriptStmt != nil && scriptStmt.Name != nil && scriptStmt.Body != nil && StmtsWF(scriptStmt.Body.Statements)
+// the output starts with the definition of the script's own label, exported exactly when its scope is global (C08, C15)
+//@   ensures [C08,C15:script-label] result1 == nil ==> (len(piecesOf(result0)) >= 1 && piecesOf(result0)[0] == (scriptStmt.Scope == token.GLOBAL ? sprintf("%s::\n", scriptStmt.Name.Value) : sprintf("%s:\n", scriptStmt.Name.Value)))
 //@   loop 1
 //@     use pigeonhole(finalChunks)
 //@     invariant [C04,C05:wl-count] chunkCounter >= 0 && len(finalChunks) + len(remainingChunks) == chunkCounter + 1 && len(finalChunks) >= 0
@@ -585,4 +587,60 @@ package emitter
 //@     invariant [C01,C10:scan] forall k int :: {curChunk.statements[k]} (0 <= k && k < i) ==> IsPlainStmt(curChunk.statements[k])
 //@     invariant [C01:scan-frame] chunkCounter == outer(chunkCounter) && remainingChunks == outer(remainingChunks)[1:] && finalChunks == outer(finalChunks)
 //@        && breakStatementReturnChunks == outer(breakStatementReturnChunks) && breakStatementOriginChunks == outer(breakStatementOriginChunks)
+//@ end
+
+// ---- mapscripts (C08) ----
+// well-formed mapscripts statement: every inline script is a well-formed script statement
+//@ pred ScriptWF(sc *ast.ScriptStatement) = sc == nil || (allocated(sc) && sc.Name != nil && sc.Body != nil && StmtsWF(sc.Body.Statements))
+//@ pred MapScriptsWF(ms *ast.MapScriptsStatement) = ms != nil && ms.Name != nil
+//@   && (forall k int :: {ms.MapScripts[k]} (0 <= k && k < len(ms.MapScripts)) ==> ScriptWF(ms.MapScripts[k].Script))
+//@   && (forall t int, k int :: {ms.TableMapScripts[t].Entries[k]} (0 <= t && t < len(ms.TableMapScripts) && 0 <= k && k < len(ms.TableMapScripts[t].Entries)) ==> ScriptWF(ms.TableMapScripts[t].Entries[k].Script))
+// does piece x start with the definition of the script's label (what emitScriptStatement returns for it)?
+//@ pred DefinesScript(x string, sc *ast.ScriptStatement) = len(piecesOf(x)) >= 1 && piecesOf(x)[0] == (sc.Scope == token.GLOBAL ? sprintf("%s::\n", sc.Name.Value) : sprintf("%s:\n", sc.Name.Value))
+
+//@ pred PrefixKept(P seq[string], Q seq[string]) = len(Q) <= len(P) && (forall k int :: {P[k]} {Q[k]} (0 <= k && k < len(Q)) ==> P[k] == Q[k])
+//@ pred HeaderDone(P seq[string], ms *ast.MapScriptsStatement) = len(P) >= 2 + len(ms.MapScripts) + len(ms.TableMapScripts)
+//@   && P[0] == (ms.Scope == token.GLOBAL ? sprintf("%s::\n", ms.Name.Value) : sprintf("%s:\n", ms.Name.Value))
+//@   && P[1 + len(ms.MapScripts) + len(ms.TableMapScripts)] == "\t.byte 0\n\n"
+//@   && (forall k int :: {ms.MapScripts[k]} (0 <= k && k < len(ms.MapScripts)) ==> P[1 + k] == sprintf("\tmap_script %s, %s\n", ms.MapScripts[k].Type.Literal, ms.MapScripts[k].Name))
+//@   && (forall k int :: {ms.TableMapScripts[k]} (0 <= k && k < len(ms.TableMapScripts)) ==> P[1 + len(ms.MapScripts) + k] == sprintf("\tmap_script %s, %s\n", ms.TableMapScripts[k].Type.Literal, ms.TableMapScripts[k].Name))
+
+// The header lists every plain entry, then every table entry, in source order and ends with '.byte 0'; then the inline
+// scripts of the plain entries, one output each; then per table its local label, one map_script_2 line per entry in
+// source order, '.2byte 0', and the inline scripts of that table's entries, one output each.
+//@ func (e *Emitter) emitMapScriptStatement
+//@   requires MapScriptsWF(mapScriptStmt)
+//@   ensures [C08,C15:header-label] result1 == nil ==> (len(piecesOf(result0)) >= 1 && piecesOf(result0)[0] == (mapScriptStmt.Scope == token.GLOBAL ? sprintf("%s::\n", mapScriptStmt.Name.Value) : sprintf("%s:\n", mapScriptStmt.Name.Value)))
+//@   ensures [C08:header-end] result1 == nil ==> (len(piecesOf(result0)) >= 2 + len(mapScriptStmt.MapScripts) + len(mapScriptStmt.TableMapScripts)
+//@        && piecesOf(result0)[1 + len(mapScriptStmt.MapScripts) + len(mapScriptStmt.TableMapScripts)] == "\t.byte 0\n\n")
+//@   ensures [C08:header-plain] result1 == nil ==> (forall k int :: {mapScriptStmt.MapScripts[k]} (0 <= k && k < len(mapScriptStmt.MapScripts)) ==>
+//@        piecesOf(result0)[1 + k] == sprintf("\tmap_script %s, %s\n", mapScriptStmt.MapScripts[k].Type.Literal, mapScriptStmt.MapScripts[k].Name))
+//@   ensures [C08:header-tables] result1 == nil ==> (forall k int :: {mapScriptStmt.TableMapScripts[k]} (0 <= k && k < len(mapScriptStmt.TableMapScripts)) ==>
+//@        piecesOf(result0)[1 + len(mapScriptStmt.MapScripts) + k] == sprintf("\tmap_script %s, %s\n", mapScriptStmt.TableMapScripts[k].Type.Literal, mapScriptStmt.TableMapScripts[k].Name))
+//@   loop 1
+//@     invariant [C08:hdr-plain-inv] len(sb.pieces) == 1 + $i && $i <= len(mapScriptStmt.MapScripts) && sb.pieces[0] == (mapScriptStmt.Scope == token.GLOBAL ? sprintf("%s::\n", mapScriptStmt.Name.Value) : sprintf("%s:\n", mapScriptStmt.Name.Value))
+//@     invariant [C08:hdr-plain-inv] forall k int :: {mapScriptStmt.MapScripts[k]} (0 <= k && k < $i) ==> sb.pieces[1 + k] == sprintf("\tmap_script %s, %s\n", mapScriptStmt.MapScripts[k].Type.Literal, mapScriptStmt.MapScripts[k].Name)
+//@   loop 2
+//@     invariant [C08:hdr-table-inv] len(sb.pieces) == 1 + len(mapScriptStmt.MapScripts) + $i && $i <= len(mapScriptStmt.TableMapScripts) && sb.pieces[0] == (mapScriptStmt.Scope == token.GLOBAL ? sprintf("%s::\n", mapScriptStmt.Name.Value) : sprintf("%s:\n", mapScriptStmt.Name.Value))
+//@     invariant [C08:hdr-table-inv] forall k int :: {mapScriptStmt.MapScripts[k]} (0 <= k && k < len(mapScriptStmt.MapScripts)) ==> sb.pieces[1 + k] == sprintf("\tmap_script %s, %s\n", mapScriptStmt.MapScripts[k].Type.Literal, mapScriptStmt.MapScripts[k].Name)
+//@     invariant [C08:hdr-table-inv] forall k int :: {mapScriptStmt.TableMapScripts[k]} (0 <= k && k < $i) ==> sb.pieces[1 + len(mapScriptStmt.MapScripts) + k] == sprintf("\tmap_script %s, %s\n", mapScriptStmt.TableMapScripts[k].Type.Literal, mapScriptStmt.TableMapScripts[k].Name)
+//@   loop 3
+//@     invariant [C08:prefix-inv] HeaderDone(sb.pieces, mapScriptStmt)
+//@     transition [C08:inline-once] mapScriptStmt.MapScripts[prev($i)].Script != nil
+//@         ? (len(sb.pieces) == len(prev(sb.pieces)) + 1 && DefinesScript(sb.pieces[len(prev(sb.pieces))], mapScriptStmt.MapScripts[prev($i)].Script) && PrefixKept(sb.pieces, prev(sb.pieces)))
+//@         : sb.pieces == prev(sb.pieces)
+//@   loop 4
+//@     invariant [C08:prefix-inv] HeaderDone(sb.pieces, mapScriptStmt)
+//@   loop 5
+//@     invariant [C08:prefix-inv] HeaderDone(sb.pieces, mapScriptStmt) && $i <= len(tableMapScript.Entries)
+//@     invariant [C08:table-inv] len(sb.pieces) == outer(len(sb.pieces)) + 1 + $i && sb.pieces[outer(len(sb.pieces))] == sprintf("%s:\n", tableMapScript.Name)
+//@     invariant [C08:table-inv] forall k int :: {tableMapScript.Entries[k]} (0 <= k && k < $i) ==> sb.pieces[outer(len(sb.pieces)) + 1 + k] == sprintf("\tmap_script_2 %s, %s, %s\n", tableMapScript.Entries[k].Condition.Literal, tableMapScript.Entries[k].Comparison, tableMapScript.Entries[k].Name)
+//@   loop 6
+//@     invariant [C08:prefix-inv] HeaderDone(sb.pieces, mapScriptStmt)
+//@     invariant [C08:table-done] len(sb.pieces) >= outer(len(sb.pieces)) + 2 + len(tableMapScript.Entries) && sb.pieces[outer(len(sb.pieces))] == sprintf("%s:\n", tableMapScript.Name)
+//@        && sb.pieces[outer(len(sb.pieces)) + 1 + len(tableMapScript.Entries)] == "\t.2byte 0\n\n"
+//@        && (forall k int :: {tableMapScript.Entries[k]} (0 <= k && k < len(tableMapScript.Entries)) ==> sb.pieces[outer(len(sb.pieces)) + 1 + k] == sprintf("\tmap_script_2 %s, %s, %s\n", tableMapScript.Entries[k].Condition.Literal, tableMapScript.Entries[k].Comparison, tableMapScript.Entries[k].Name))
+//@     transition [C08:inline-once] tableMapScript.Entries[prev($i)].Script != nil
+//@         ? (len(sb.pieces) == len(prev(sb.pieces)) + 1 && DefinesScript(sb.pieces[len(prev(sb.pieces))], tableMapScript.Entries[prev($i)].Script) && PrefixKept(sb.pieces, prev(sb.pieces)))
+//@         : sb.pieces == prev(sb.pieces)
 //@ end
